@@ -1255,6 +1255,8 @@ condexpr(struct scope *s)
 	e = binaryexpr(s, NULL, 0);
 	if (!consume(TQUESTION))
 		return e;
+	if (!(e->type->prop & PROPSCALAR))
+		error(&tok.loc, "first operand of conditional operator must have scalar type");
 	l = expr(s);
 	expect(TCOLON, "in conditional expression");
 	r = condexpr(s);
